@@ -345,8 +345,12 @@ size_t MeasureRecordReaderFormatHits<W>::read_into_table_with_minor_shot_index(
     simd_bit_table<W> &out_table, size_t max_shots) {
     size_t read_shots = 0;
     out_table.clear();
+    size_t m = this->bits_per_record();
     while (read_shots < max_shots) {
         bool more = start_and_read_entire_record_helper([&](size_t bit_index) {
+            if (bit_index >= m) {
+                throw std::invalid_argument("hit index is too large.");
+            }
             out_table[bit_index][read_shots] |= 1;
         });
         if (!more) {
